@@ -484,6 +484,8 @@ class WriterThread(threading.Thread):
         self.queue = queue.SimpleQueue()
         self.write_indexes = [i for i in INDEXES.values() if i.enabled]
         self.processing = False
+        # ids of events that are queued but not written yet
+        self.pending_ids = set()
 
     def run(self):
         env = self.env
@@ -530,6 +532,8 @@ class WriterThread(threading.Thread):
             except Exception:
                 log.exception("writer")
             finally:
+                if operation == "add":
+                    self.pending_ids.discard(args[0].id)
                 self.processing = False
 
     def _delete_event(self, txn, event: Event, log):
@@ -672,8 +676,10 @@ class LMDBStorage(BaseStorage):
             # the write happens later, on the writer thread: make sure now that
             # it can succeed, and don't acknowledge or re-broadcast duplicates
             self.check_storable(event)
-            if await self.get_event(event.id):
+            pending_ids = self.writer_thread.pending_ids
+            if event.id in pending_ids or await self.get_event(event.id):
                 return event, False
+            pending_ids.add(event.id)
             self.writer_queue.put(("add", [event]))
         await self.post_save(event)
         return event, True
